@@ -97,6 +97,8 @@ static void run_world(rng &r, long long idx, long long nops)
 			std::string key = r.pick(keys);
 			size_t len; switch (r.below(8)) { case 0: len = 0; break; case 1: len = r.range(65536, 200000); break; case 2: len = r.below(5000); break; default: len = r.below(40); }
 			std::string v = "v" + std::to_string(++val) + ":" + (r.chance(1, 3) ? r.bytes(len) : std::string(len, (char)('a' + val % 26)));
+			if (r.chance(1, 8)) { v.clear(); O().count("stores_of_empty_value"); }      // the truly empty value (the sequential model does not need unique values)
+			else if (r.chance(1, 20)) v = std::string(1, '\0');
 			std::set<std::string> tr;
 			int nt = r.chance(1, 25) ? 1000 : r.below(4);
 			for (int t = 0; t < nt; t++) tr.insert(nt > 10 ? "bulk" + std::to_string(t) : r.pick(trigs));
@@ -118,7 +120,7 @@ static void run_world(rng &r, long long idx, long long nops)
 			auto p = w.model.find(key);
 			bool want = p != w.model.end() && p->second.deadline >= now;
 			bool tainted = p != w.model.end() && p->second.tainted;
-			w.trace.push_back(who + "fetch(" + hex(key.substr(0, 12)) + ") -> " + (hit ? "hit " + v.substr(0, 8) : "miss"));
+			w.trace.push_back(who + "fetch(" + hex(key.substr(0, 12)) + ") -> " + (hit ? "hit [" + v.substr(0, 8) + "] len " + std::to_string(v.size()) : "miss"));
 			O().count("fetches");
 			std::string sfx = (tainted || g_odd) ? ":key-or-trigger-name-with-NUL-or-empty" : "";
 			if (hit && !want) viol(w, "netcache:stale-or-invalidated-value-served" + sfx, hex(key.substr(0, 12)));
